@@ -15,6 +15,10 @@ def KitRow.derivedOk (r : KitRow) : Bool :=
 theorem kits_derived : kits.all KitRow.derivedOk = true := by decide +kernel
 theorem kits_5prime : kits.all (fun r => r.is5 && decide (1 ≤ r.k)) = true := by decide +kernel
 theorem kits_flat : kits.all (fun r => flatGroups r.pat false) = true := by decide +kernel
+/-- every kit class records exactly three capture groups -/
+theorem kits_three_groups : kits.all (fun r => nmarks r.pat == 6) = true := by decide +kernel
+/-- every kit class is cut-aligned with respect to its own cutter (hand-written structures included) -/
+theorem kits_cutAligned : kits.all (fun r => cutAligned (KitRow.geom r) r.pat) = true := by decide +kernel
 theorem kits_count : 85 ≤ kits.length := by decide +kernel
 
 end Moclo.Tables
